@@ -1455,7 +1455,7 @@ def model_footprints(fns):
 
 def seed_of(spec):
     s = spec["kw"].get("seed")
-    return s if isinstance(s, int) else 0
+    return int(s) if isinstance(s, int) and s >= 0 else 0      # (an equal-key variant may have made it True / 5.0 / "5")
 
 
 DASK_KEY = re.compile(r"^[A-Za-z_][\w.]*-[0-9a-f]{32}$")
